@@ -10,7 +10,13 @@
    (DESIGN.md 11.5).
 
    The whitespace branch of this build decodes one character ahead inside the loop body; the ghost consumes that character
-   at the hook EAV_VERIF_AT(is_6531_local_fws). */
+   at the hook EAV_VERIF_AT(is_6531_local_fws).
+
+   Cost note: every textual dereference of the input inside an invariant or contract becomes a separate index of the
+   input array and CBMC's array theory adds constraints for every PAIR of indices; the first version of this invariant read
+   start[prev] nine times and needed > 20 GB.  The invariant therefore reads the byte at prev once (g_cur == start[prev])
+   and states everything else over the ghost g_cur, and the job runs with --refine-arrays (array constraints added on
+   demand): 3.5 min / 1.2 GB. */
 #include <models_common.h>
 #include <scan_common.h>
 #include <spec_local.h>
@@ -43,20 +49,16 @@ __CPROVER_ensures(__CPROVER_return_value <= 0 && __CPROVER_return_value > -EEAV_
         && (quote==0||quote==1) && (qpair==0||qpair==1) && (!quote ==> !qpair) \
         && (u.the_index == 0) == (prev == -1) && prev >= -1 && prev < u.the_index && (quote ==> prev >= 0) \
         && (!g_nonascii ==> ( \
-              (!quote ==> g_state == ((prev < 0 || start[prev] == '.') ? L_START : (start[prev] == '"') ? L_QEND : L_ATOM)) \
+              (prev < 0 ? g_cur == -1 : (g_cur == BYTE_AT(start + prev) && g_cur <= 127 && prev + 1 == u.the_index)) \
+           && (!quote ==> g_state == ((g_cur == -1 || g_cur == '.') ? L_START : (g_cur == '"') ? L_QEND : L_ATOM)) \
            && ((quote && qpair) ==> g_state == L_QPAIR) \
-           && ((quote && !qpair) ==> (L_IS_DQWS(start[prev]) ? (g_state == L_QDQWS || (g_state == L_QPEND && u.the_index == u.the_length)) : g_state == L_QOTHER)) \
-           && ((!quote && prev >= 0 && start[prev] == '.') ==> (u.the_index < u.the_length)) \
-           && (prev >= 0 ==> (BYTE_AT(start + prev) <= 127 && prev + 1 == u.the_index))))) \
+           && ((quote && !qpair) ==> (L_IS_DQWS(g_cur) ? (g_state == L_QDQWS || (g_state == L_QPEND && u.the_index == u.the_length)) : g_state == L_QOTHER)) \
+           && ((!quote && g_cur == '.') ==> (u.the_index < u.the_length))))) \
     __CPROVER_decreases(u.the_length - u.the_index)
 
-#ifdef NO_WF
-#define GHOST_WF
-#else
 #define GHOST_WF \
     g_b0 = BYTE_K(start, g_pos, g_len); g_b1 = BYTE_K(start, g_pos + 1, g_len); g_b2 = BYTE_K(start, g_pos + 2, g_len); g_b3 = BYTE_K(start, g_pos + 3, g_len); \
     __CPROVER_assert((size_t)u.the_byte == g_pos && u.the_index - u.the_byte == WFLEN_B && WFLEN_B >= 1, "GHOST: decoder consumed exactly one well-formed UTF-8 sequence, contiguous with the previous one");
-#endif
 #define GHOST_CONSUME GHOST_WF \
     if (ch > 127) g_nonascii = 1; \
     g_cur = ch; g_state = SPEC5322_STEP(g_state, (ch > 127 ? 128 : ch)); g_pos = (size_t)u.the_index;
@@ -65,6 +67,7 @@ __CPROVER_ensures(__CPROVER_return_value <= 0 && __CPROVER_return_value > -EEAV_
 #define EAV_VERIF_AT_is_6531_local_fws GHOST_CONSUME
 
 #include <src/is_6531_local.c>
+
 
 void harness(void)
 {
